@@ -30,17 +30,17 @@ def ctx():
 class Pre(object):
     """symbolic pre-state: which of x, y are bound and to which type"""
 
-    def __init__(self, C, tx, ty, with_fn):
+    def __init__(self, C, tx, ty, with_fn, extra=0):
         self.C = C
         self.cons = []
         self.vars = {}      # name -> (value adt, spec)
-        for n, t in (('x', tx), ('y', ty)):
+        for n, t in [('x', tx), ('y', ty)] + [('w%d' % i, ['I', 'S1', 'F'][i % 3]) for i in range(extra)]:
             if t is not None:
                 v, s = make_value(C, t, 'pre_' + n, self.cons)
                 self.vars[n] = (v, s)
         self.with_fn = with_fn
         self.flag = z3.Bool('pre_disabled')
-        self.desc = 'x:%s y:%s fn:%s' % (tx, ty, with_fn)
+        self.desc = 'x:%s y:%s fn:%s%s' % (tx, ty, with_fn, ' +%d more variables' % extra if extra else '')
 
     def build(self, st):
         return build_context(self.C, st, variables=[(n, copy_value(v)) for n, (v, s) in self.vars.items()],
@@ -126,17 +126,18 @@ def unit(u, res):
     timeout_ms = u[-2]
     pr = checklib.Prover(res, timeout_ms, CVC5_RATE[0], random.Random(zlib.crc32(repr(u).encode()) ^ checklib.env_seed()))
     if kind == 'set':
-        _, tx, ty, name, tv, with_fn, timeout_ms, seed = u
-        pre = Pre(C, tx, ty, with_fn)
+        _, tx, ty, name, tv, with_fn, timeout_ms, seed = u[:8]
+        pre = Pre(C, tx, ty, with_fn, extra=(u[8] if len(u) > 8 else 0))
         cons2 = []
         v, vs = make_value(C, tv, 'new', cons2)
         body = C.method('HashMapContext', 'set_value', trait='ContextWithMutableVariables')
         cases = set_value_model(pre.model(), name, vs)
         check_mutation(C, res, pr, 'set_value(%s, %s) on %s' % (name, tv, pre.desc), body, pre, cons2,
-                       lambda st, c: [c, sstr(name), copy_value(v)], cases, pre.with_fn, pre.flag, role='set_value')
+                       lambda st, c: [c, sstr(name), copy_value(v)], cases, pre.with_fn, pre.flag, role='set_value',
+                       exact_op=lambda m: ['set', name, spec_concrete(vs, m)])
     elif kind == 'assign':
-        _, opname, tx, ty, name, tv, timeout_ms, seed = u
-        pre = Pre(C, tx, ty, False)
+        _, opname, tx, ty, name, tv, timeout_ms, seed = u[:8]
+        pre = Pre(C, tx, ty, False, extra=(u[8] if len(u) > 8 else 0))
         cons2 = []
         v, vs = make_value(C, tv, 'rhs', cons2)
         body = C.method('Operator', 'eval_mut')
@@ -158,7 +159,8 @@ def unit(u, res):
                     else:
                         cases.append((cond, ('errclass', c03.TYPE_ERRS), dict(pv)))
         check_mutation(C, res, pr, '%s %s %s on %s' % (name, opname, tv, pre.desc), body, pre, cons2,
-                       lambda st, c: [ref_to(st, C.operator(opname)), ref_to(st, VecV([C.v_str(name), copy_value(v)])), c], cases, False, pre.flag, role='assignment')
+                       lambda st, c: [ref_to(st, C.operator(opname)), ref_to(st, VecV([C.v_str(name), copy_value(v)])), c], cases, False, pre.flag, role='assignment',
+                       exact_op=lambda m: ['assign', opname, name, spec_concrete(vs, m)])
     elif kind == 'misc':
         _, what, tx, ty, with_fn, timeout_ms, seed = u
         pre = Pre(C, tx, ty, with_fn)
@@ -244,6 +246,30 @@ def unit(u, res):
                     verdict, model = pr.prove('%s on %s' % (what, pre.desc), o2.pc, claim)
                     if verdict == 'sat':
                         res.sat.append(dict(key=what, witness='%s on pre-state %s' % (what, pre.desc), pre=pre.desc))
+        elif what == 'clone_from':
+            body = C.p.find_method('Clone', 'HashMapContext', 'clone_from')
+            if body is None:
+                # derived / default clone_from = `*self = source.clone()`: covered by the clone unit
+                res.obligations += 1
+                res.discharged += 1
+                return
+            other = Pre(C, 'S1' if tx != 'S1' else 'I', None, not with_fn)
+            other.flag = z3.Bool('other_disabled')
+            holder = {}
+
+            def args(st):
+                holder['c'] = ref_to(st, other.build(st), mut=True)
+                return [holder['c'], ref_to(st, pre.build(st))]
+            ex, outs = C.run(body, args, pc=pre.cons + other.cons)
+            res.paths += len(outs)
+            res.bodies |= ex.bodies_used
+            for o in outs:
+                res.nontrivial_paths += 1
+                cv = find_cell(o.state, holder['c'].cell.id, o)
+                claim = post_state_claim(C, cv, pv, with_fn, pre.flag) if (o.kind == 'return' and cv is not None) else z3.BoolVal(False)
+                verdict, model = pr.prove('clone_from on %s' % pre.desc, o.pc, claim)
+                if verdict == 'sat':
+                    res.sat.append(dict(key='clone_from does not reproduce the source state', witness='b.clone_from(&a) with a = %s: b differs from a afterwards' % pre.desc, pre=pre.desc, clone_from=True))
         elif what == 'clone':
             body = C.p.find_method('Clone', 'HashMapContext', 'clone')
             holder = {}
@@ -269,7 +295,7 @@ def unit(u, res):
         res.samples.append(dict(unit=str(u[:6]), paths=res.paths))
 
 
-def check_mutation(C, res, pr, name, body, pre, cons2, mkargs, cases, want_fn, want_flag, role):
+def check_mutation(C, res, pr, name, body, pre, cons2, mkargs, cases, want_fn, want_flag, role, exact_op=None):
     holder = {}
 
     def args(st):
@@ -301,8 +327,10 @@ def check_mutation(C, res, pr, name, body, pre, cons2, mkargs, cases, want_fn, w
         claim = z3.Or(*alts) if alts else z3.BoolVal(False)
         verdict, model = pr.prove(name, o.pc, claim)
         if verdict == 'sat':
+            pre_vars = [(n, spec_concrete(s, model)) for n, (v, s) in pre.vars.items()]
             res.sat.append(dict(key='%s step differs from the map model' % role, witness=name + ': got %s' % (render_result(C.meta, o.value, model) if o.kind == 'return' and isinstance(o.value, Adt) and o.value.ty == 'Result' else o.kind,),
-                                pre=pre.desc, unit=name))
+                                pre=pre.desc, unit=name, pre_vars=pre_vars, with_fn=pre.with_fn, disabled=bool(z3.is_true(model.eval(pre.flag, model_completion=True))),
+                                op=exact_op(model) if exact_op else None))
 
 
 def find_cell(st, cid, o):
@@ -319,6 +347,19 @@ def replay_ce(ce):
     apply every assignment operator with a right-hand side of every type and judge the outcome with an independent concrete reference
     (C03's operator reference followed by the type-safe map assignment)."""
     import struct
+    if ce.get('clone_from'):
+        details = []
+        bad = False
+        for prof in ('dev', 'release'):
+            for dis in (False, True):
+                out = replay.run_cases(replay.case_text('c', 'none', '', vars=[('x', ('Int', 5)), ('s', ('String', 'a'))], funcs=[('f', 'log')], disabled=dis, ops=['clonefrom', 'call %s I:1' % replay.hx('f')]), prof)['c']
+                okk = out.get('vars') == {'x': ('Int', 5), 's': ('String', 'a')} and out.get('disabled') == dis and [n for n, a in out.get('log', [])] == ['f']
+                details.append('%s: a = {x: 5, s: "a", f, disabled %s}; b.clone_from(&a) -> b = %s disabled %s calls %s' % (prof, dis, out.get('vars'), out.get('disabled'), out.get('log')))
+                bad = bad or not okk
+        return ('reproduced' if bad else 'not_reproduced'), details
+    ex_ = exact_replay(ce)
+    if ex_ is not None and ex_[0] == 'reproduced':
+        return ex_
     vals = {'I': ('Int', 5), 'F': ('Float', struct.unpack('<Q', struct.pack('<d', 2.5))[0]), 'B': ('Boolean', True), 'S1': ('String', 'a'), 'T1': ('Tuple', [('Int', 1)]), 'E': ('Empty',)}
     vals2 = dict(vals, B2=('Boolean', False))
     lits = {'I': ('7', ('Int', 7)), 'F': ('1.5', ('Float', struct.unpack('<Q', struct.pack('<d', 1.5))[0])), 'B': ('false', ('Boolean', False)), 'Bt': ('true', ('Boolean', True)),
@@ -365,6 +406,53 @@ def replay_ce(ce):
             bad = True
             details.append('%s: fresh assignment `z = 4; z` -> %s, context %s' % (prof, f.get('result'), f['vars']))
     return ('reproduced' if bad else 'not_reproduced'), details[:6] or ['native histories agree with the map model on the probe programs']
+
+
+def exact_replay(ce):
+    """replay the solver's own pre-state and operation natively and compare the post-state bit for bit with the python map model"""
+    if not ce.get('op') or ce.get('pre_vars') is None:
+        return None
+    op = ce['op']
+    pre = dict((n, c03.tuple_fix(v)) for n, v in ce['pre_vars'])
+    sym = {'Assign': '=', 'AddAssign': '+=', 'SubAssign': '-=', 'MulAssign': '*=', 'DivAssign': '/=', 'ModAssign': '%=', 'ExpAssign': '^=', 'AndAssign': '&&=', 'OrAssign': '||='}
+    tname = {'Int': 'I', 'Float': 'F', 'Boolean': 'B', 'String': 'S', 'Tuple': 'T', 'Empty': 'E'}
+    details = []
+    bad = False
+    for prof in ('dev', 'release'):
+        if op[0] == 'set':
+            name, val = op[1], c03.tuple_fix(op[2])
+            out = replay.run_cases(replay.case_text('c', 'none', '', vars=list(pre.items()), ops=['set %s %s' % (replay.hx(name), replay.enc_value(val))]), prof)['c']
+            newv, errc = val, None
+            res_line = out['ops'][0] if out['ops'] else None
+            okr = None
+        else:
+            opname, name, val = op[1], op[2], c03.tuple_fix(op[3])
+            vars_ = dict(pre)
+            vars_['rhs__'] = val
+            out = replay.run_cases(replay.case_text('c', 'eval_with_context_mut', '%s %s rhs__' % (name, sym[opname]), vars=list(vars_.items())), prof)['c']
+            if opname == 'Assign':
+                newv, errc = val, None
+            elif name not in pre:
+                newv, errc = None, 'notfound'
+            else:
+                want = c03.concrete_reference(OPASSIGN[opname], pre[name], val)
+                if want is None:
+                    return None
+                newv, errc = (spec_to_py(want[1]), None) if want[0] == 'val' else (None, want[0])
+                if want[0] == 'val' and newv is None:
+                    return None
+        after = dict(out.get('vars', {}))
+        after.pop('rhs__', None)
+        expect = dict(pre)
+        if errc is None:
+            if name in pre and pre[name][0] != newv[0]:
+                pass                      # type error: unchanged
+            else:
+                expect[name] = newv
+        okk = set(after) == set(expect) and all(same_py(after[k], expect[k]) for k in expect)
+        details.append('%s: pre %s ; %s -> variables afterwards %s ; map model %s' % (prof, pre, op, after, expect))
+        bad = bad or not okk
+    return ('reproduced' if bad else 'not_reproduced'), details
 
 
 def spec_to_py(s):
@@ -416,7 +504,15 @@ def main():
             for name in ('x', 'z'):
                 for tv in TYPES:
                     units.append(('assign', opname, tx, 'B' if tier != 'quick' else None, name, tv, timeout_ms, seed))
-    for what in ('clear_variables', 'clear_functions', 'clear', 'set_function', 'disable_true', 'disable_false', 'get_x', 'get_z', 'iter_variables', 'iter_variable_names', 'clone'):
+    # pre-states with more live variables (4 and 5 bindings): same operations
+    for tx in opts:
+        for name in ('x', 'w1', 'z'):
+            for tv in ('I', 'S1', 'E'):
+                units.append(('set', tx, 'B', name, tv, False, timeout_ms, seed, 3))
+        for opname in ('Assign', 'AddAssign', 'OrAssign'):
+            for tv in ('I', 'B', 'S1'):
+                units.append(('assign', opname, tx, 'F', 'x', tv, timeout_ms, seed, 3))
+    for what in ('clear_variables', 'clear_functions', 'clear', 'set_function', 'disable_true', 'disable_false', 'get_x', 'get_z', 'iter_variables', 'iter_variable_names', 'clone', 'clone_from'):
         for tx in opts:
             for ty in (None, 'F', 'T1'):
                 for with_fn in (False, True):
